@@ -6,6 +6,9 @@ d = os.path.join('/verif/seeded', name)
 log = open(os.path.join(d, 'confirm.log')).read()
 m = re.search(r'suite_exit=(\d+) demo_with_change_exit=(\d+) demo_without_change_exit=(\d+)', log)
 checks = {}
+first = {}
+for mm in re.finditer(r'check (C\d+) exit=(\d+) (\d+) violation', log.split('== re-run after strengthening')[0]):
+    first[mm.group(1)] = {"exit": int(mm.group(2)), "violation_lines": int(mm.group(3))}
 for mm in re.finditer(r'check (C\d+) exit=(\d+) (\d+) violation', log):
     checks[mm.group(1)] = {"exit": int(mm.group(2)), "violation_lines": int(mm.group(3)),
                            "verdict": "caught" if mm.group(2) == '1' and int(mm.group(3)) > 0 else ("inconclusive" if mm.group(2) == '2' else ("missed" if mm.group(1) == prop else "silent (run for information: the change was not written against this property)"))}
@@ -14,6 +17,6 @@ meta = {"breaks_property": prop, "needs_to_manifest": needs,
         "confirmed": {"existing_suite_passes_with_change": m.group(1) == '0', "demo_fails_with_change": m.group(2) != '0', "demo_passes_without_change": m.group(3) == '0'},
         "demonstration": demo, "patch": "patch.diff",
         "what_was_run": "tools/try_seed.sh: scratch worktree of /repo HEAD, git apply patch.diff, `go test -vet=off -count=1 ./...`, demo with and without the change, then `gosym check --tier quick` with VERIF_REPO pointing at the patched scratch tree",
-        "checks": checks, "written_by": "independent sub-agent given only the property text"}
+        "checks": checks, "first_run_before_strengthening": first, "written_by": "independent sub-agent given only the property text"}
 json.dump(meta, open(os.path.join(d, 'meta.json'), 'w'), indent=1)
 print(name, checks)
